@@ -95,6 +95,163 @@ def rand_narrow_ops(rng, d=None):
     return setup, axes, [f"narrow:{dt}", f"narrow_route:{route}"]
 
 
+# ------------------------------------------------------------------ integers beyond 2**53 (and their neighbours)
+#
+# int64 holds every integer below 2**63 exactly, float64 only those below 2**53 (and the even / 4-fold / ... ones above):
+# contents and -- much more easily, being squares -- squared errors of integer histograms beyond 2**53 must still be summed
+# exactly by projection / accumulate / total.  All numbers of these streams travel as exact integer strings (core.rs of a
+# python int; implnd.arr_exact builds the arrays from python ints; snapshots use core.nrs on the numpy integers), nothing
+# goes through a float on the way.
+
+TWO53 = 2**53
+I64MAX = 2**63 - 1
+BIG_SPECIALS = [2**60 + 3, 2**61 + 1, 2**60 + 2**8 + 1, 2**59 + 5, 2**62 - 1, 2**58 + 2**4 + 1, 10**18 + 9]
+BIG_ROUND = [10**16 + 1, (10**8 + 1)**2, (3 * 10**8 + 7)**2, 2**54 + 1, 2**55 + 3, 2**56 - 1, 2**57 + 2**3 + 1, 10**17 + 3]
+BIG_FACTORS = [10**8 + 1, 10**8 + 7, 94906267, 2**27 + 1, 3 * 10**8 + 1, 2**28 + 3, 10**9 + 7, 2**31 - 1]
+BIG_WEIGHTS = [10**8 + 1, 3 * 10**8 + 7, 94906267, 2**27 + 1, 2**28 + 3, 4 * 10**8 + 9, 123456789, 5 * 10**8 - 1]
+BIG_ROUTES = ["explicit"] * 6 + ["scaled"] * 4 + ["filled"] * 3 + ["uint64"] * 2 + ["f64_grid"] * 2 + ["f32_rounded"] * 2
+ENABLE_BEYOND53 = True
+
+
+def big_ints(rng, size, budget):
+    """`size` non-negative integers adding up to at most `budget` (< 2**63): up to two very large cells, most of the others
+    odd numbers beyond 2**53 (not representable in float64), a few small ones and zeros"""
+    vals = [None] * size
+    rest = budget
+    order = list(range(size))
+    rng.shuffle(order)
+    for i in order[:rng.choice([0, 1, 1, 2])]:
+        cands = [v for v in BIG_SPECIALS if v <= rest // 2]
+        if cands:
+            vals[i] = rng.choice(cands)
+            rest -= vals[i]
+    cap = rest // size
+    for i in range(size):
+        if vals[i] is not None:
+            continue
+        r = rng.random()
+        v = None
+        if cap > TWO53 + 2**11:
+            if r < 0.35:
+                v = TWO53 + rng.choice([1, 1, 3, 5, 7, 2**10 + 1, 2 * rng.randint(0, 1000) + 1])
+            elif r < 0.6:
+                v = rng.randint(TWO53, cap) | 1
+                v = v if v <= cap else v - 2
+            elif r < 0.75:
+                cands = [x for x in BIG_ROUND if x <= cap]
+                v = rng.choice(cands) if cands else TWO53 + 1
+        if v is None:
+            v = rng.choice([0, 0, 1, 2, 5, 2**31, 2**52 + 1, 2**53 - 1]) if r < 0.92 else 0
+        vals[i] = v
+    assert sum(vals) <= budget and all(v >= 0 for v in vals)
+    return vals
+
+
+def grid_floats(rng, size, coef_budget, unit):
+    """float64 numbers unit * k (unit a power of two) with integer coefficients k adding up to at most `coef_budget`
+    (< 2**53): large, exactly representable, and every sum of them is exactly representable too"""
+    ks = [None] * size
+    rest = coef_budget
+    order = list(range(size))
+    rng.shuffle(order)
+    for i in order[:rng.choice([0, 1, 1])]:
+        cands = [k for k in (2**50 + 1, 2**51 + 1, 2**49 + 3, 2**50 + 2**20 + 1) if k <= rest // 2]
+        if cands:
+            ks[i] = rng.choice(cands)
+            rest -= ks[i]
+    cap = max(rest // size, 1)
+    for i in range(size):
+        if ks[i] is None:
+            r = rng.random()
+            ks[i] = 0 if r < 0.15 else (rng.randint(cap // 2, cap) | 1 if r < 0.8 and cap > 4 else rng.randint(0, min(cap, 9)))
+            ks[i] = min(ks[i], cap)
+    assert sum(ks) <= coef_budget
+    return [Fraction(unit) * k for k in ks]
+
+
+def f32_values(rng, size, e0):
+    """numbers a float32 stores exactly (24-bit integers times a power of two) of large and mixed magnitude: their sums
+    are NOT exact in float32 (tolerance stream)"""
+    return [0 if rng.random() < 0.15 else Fraction(2) ** (e0 + rng.randint(0, 6)) * rng.randint(2**23, 2**24 - 1)
+            for _ in range(size)]
+
+
+def midpoint(pair):
+    return (pair[0] + pair[1]) / 2
+
+
+def rand_big_ops(rng, d=None, route=None):
+    """setup ops of a parent whose contents / squared errors need more than 53 bits; returns (setup ops, axes, tags, extra)
+    where extra holds case-level flags (no_model, tolerance) and the events of the `filled` route"""
+    d = d or rng.choice([2, 2, 2, 3, 3, 4])
+    axes = [gennd.axis_binning(rng, maxbins=3 if d < 4 else 2) for _ in range(d)]
+    shape = [len(a[1]) for a in axes]
+    size = int(np.prod(shape))
+    longest = max(shape)
+    route = route or rng.choice(BIG_ROUTES)
+    nm = rng.sample(["x", "y", "z", "t", "a", "b"], d) if rng.random() < 0.6 else None
+    tags = ["stream:beyond53", f"stream:beyond53:{route}"]
+    extra = {}
+    base = {"op": "of_arrays", "out": 0, "axes": [a[0] for a in axes], "missed": rs(rng.randint(0, 4)), "names": nm, "keep": True}
+
+    if route in ("explicit", "uint64"):
+        # the running sums along one axis add up to at most longest * total (the snapshot reads the total of every register)
+        f = big_ints(rng, size, I64MAX // longest) if rng.random() < 0.7 else [rng.choice([0, 1, 2, 3, 5, 8]) for _ in range(size)]
+        e = big_ints(rng, size, I64MAX)
+        init = dict(base, freq=[rs(x) for x in f], err2=[rs(x) for x in e], dtype="int64" if route == "explicit" else "uint64")
+        if rng.random() < 0.4:
+            init["missed"] = rs(rng.choice([TWO53 + 1, 2**60 + 3, 10**16 + 1, 2**62 + 1]))
+            init["missed_kind"] = "pyint"
+            tags.append("stream:beyond53:missed")
+        setup = [init]
+        if route == "uint64":
+            extra["no_model"] = True        # the model has no unsigned type (physt stores such arrays as int64)
+    elif route == "scaled":
+        # a counting histogram times a large python integer: contents n*c, squared errors n*c*c ~ 1e16 and more
+        f = [rng.choice([0, 0, 1, 1, 2, 3]) for _ in range(size)]
+        if not any(f):
+            f[rng.randrange(size)] = 1
+        n = sum(f)
+        c = rng.choice([x for x in BIG_FACTORS if x * x * n <= I64MAX])
+        init = dict(base, freq=[rs(x) for x in f], err2=None, dtype="int64")
+        how = rng.choice(["imul", "mul", "rmul"])
+        if how == "imul":
+            op = {"op": "imul", "h": 0, "c": rs(c), "k": "pyint"}
+        else:
+            op = {"op": "mul", "h": 0, "c": rs(c), "k": "pyint", "out": 0, "reflected": how == "rmul"}
+        setup = [init, op]
+        tags.append(f"scaled_by:{how}")
+    elif route == "filled":
+        # an empty integer histogram filled event by event with large integer weights (squares beyond 2**53)
+        events = []
+        for _ in range(rng.randint(3, 10)):
+            v = [midpoint(rng.choice(a[1])) for a in axes]
+            if rng.random() < 0.06:         # next to the bins: the weight goes to the missed count
+                j = rng.randrange(d)
+                v[j] = axes[j][1][0][0] - 1.0
+            events.append((v, rng.choice(BIG_WEIGHTS)))
+        setup = [{"op": "empty", "out": 0, "axes": [a[0] for a in axes], "names": nm, "keep": True, "dtype": "int64"}]
+        setup += [{"op": "fill", "h": 0, "v": [rs(x) for x in v], "w": rs(w), "wk": "pyint"} for v, w in events]
+        extra["events"] = True
+    elif route == "f64_grid":
+        f = grid_floats(rng, size, (TWO53 - 1) // longest, Fraction(2) ** rng.choice([8, 8, 10, 30, 100, -20]))
+        e = grid_floats(rng, size, TWO53 - 1, Fraction(2) ** rng.choice([8, 16, 60, 200]))
+        init = dict(base, freq=[rs(x) for x in f], err2=[rs(x) for x in e], dtype="float64")
+        if rng.random() < 0.4:
+            init["missed"] = rs(rng.choice([2**60 + 2**8, 2**70, 2**53 + 2]))
+            tags.append("stream:beyond53:missed")
+        setup = [init]
+    elif route == "f32_rounded":
+        e0 = rng.choice([0, 20, 60, 90])
+        init = dict(base, freq=[rs(x) for x in f32_values(rng, size, e0)], err2=[rs(x) for x in f32_values(rng, size, e0)],
+                    dtype="float32")
+        setup = [init]
+        extra["tolerance"] = True           # float32 sums are rounded: compared at float32 precision (DESIGN 9.4)
+    else:
+        raise ValueError(route)
+    return setup, axes, tags, extra
+
+
 # ------------------------------------------------------------------ axis references and axis lists
 
 def spell(rng, i, names):
@@ -181,19 +338,32 @@ class C09(HistNProp):
             "set_dtype / the dtype property, contents and squared errors near the type's limits, so that marginals and running "
             "sums of the integer types exceed the parent type's range (float contents lie on a grid on which all sums are exact "
             "and in range); expected values are sums of python Fractions. "
+            "Integers beyond 2**53 (stream:beyond53, every 8th case, every 4th case of the failing-input search, neighbours of a "
+            "disagreeing case, and in thorough all axis lists in every order for d <= 4): int64 parents whose contents and / or "
+            "squared errors need more than 53 bits (odd numbers beyond 2**53, 2**60 + 3, ...; all sums inside int64) built from "
+            "explicit arrays of exact integers (explicit; uint64 arrays, which physt stores as int64, oracle only), as a counting "
+            "histogram times a large python integer (scaled: squared errors n*c*c ~ 1e16), or filled event by event with large "
+            "integer weights (filled; with the histogram filled directly from the kept columns next to the projection), missed "
+            "weights beyond 2**53; float64 parents of large numbers on a power-of-two grid on which every sum is exact "
+            "(f64_grid); float32 parents of mixed large magnitude whose sums are rounded (f32_rounded: oracle and "
+            "correspondence at relative 1e-5). All numbers travel as exact integer / rational strings, never through a float. "
             "non-trivial = non-zero contents and at least one axis with > 1 bin dropped; distinct = op-list hash")
     FIELDS = {"bins", "shape", "freq", "err2", "total", "dtype", "names", "ndim"}
 
     def gen_case(self, rng, k, tier):
         narrow = (k % 8 == 3) or (tier == "search" and k % 2 == 1)
+        big = ENABLE_BEYOND53 and ((k % 8 == 6) or (tier == "search" and k % 4 == 2))
+        extra = {}
         if narrow:
             setup, axes, tags = rand_narrow_ops(rng)
+        elif big:
+            setup, axes, tags, extra = rand_big_ops(rng)
         else:
             init, axes = rand_nd_op(rng)
             setup, tags = [init], []
-        return self.build(rng, setup, axes, tags=tags, many_refusals=(k % 4 == 1))
+        return self.build(rng, setup, axes, tags=tags, many_refusals=(k % 4 == 1), extra=extra)
 
-    def build(self, rng, setup, axes, subset=None, tags=(), many_refusals=False):
+    def build(self, rng, setup, axes, subset=None, tags=(), many_refusals=False, extra=None):
         if isinstance(setup, dict):
             setup = [setup]
         init = setup[0]
@@ -214,6 +384,14 @@ class C09(HistNProp):
             # the same final axes directly from the parent
             final = sorted(kept[j] for j in sub2)
             ops.append({"op": "projection", "h": 0, "axes": final, "out": 3})
+        extra = dict(extra or {})
+        if extra.pop("events", False):
+            # the histogram built directly from the kept columns of the same events (register 9)
+            ops.append({"op": "empty", "out": 9, "axes": [init["axes"][i] for i in kept], "names": [names[i] for i in kept],
+                        "keep": True, "dtype": init.get("dtype", "int64")})
+            for o in setup[1:]:
+                if o["op"] == "fill":
+                    ops.append({"op": "fill", "h": 9, "v": [o["v"][i] for i in kept], "w": o["w"], "wk": o["wk"]})
         if d == 2:
             ops.append({"op": "T", "h": 0, "out": 4})
             ops.append({"op": "T", "h": 4, "out": 5})
@@ -255,7 +433,11 @@ class C09(HistNProp):
                 lo = len(setup)
             tags.append(f"refuse:{kind}")
             ops.insert(rng.randint(lo, len(ops)), op)        # anywhere in the history
-        return {"kind": "histn", "ops": ops, "tags": tags, "subset": list(subset), "setup": len(setup)}
+        return dict({"kind": "histn", "ops": ops, "tags": tags, "subset": list(subset), "setup": len(setup)}, **extra)
+
+    def model_case(self, case, io):
+        # unsigned contents are outside the model's types: those cases are judged by the oracle alone
+        return None if case.get("no_model") else case
 
     def exhaustive_cases(self, tier):
         if tier != "thorough":
@@ -269,6 +451,16 @@ class C09(HistNProp):
                     c = self.build(rng, init, axes, subset=list(sub))
                     c["tags"].append("exhaustive_axis_lists")
                     yield c
+        if not ENABLE_BEYOND53:
+            return
+        for d in (2, 3, 4):
+            for route in ("explicit", "scaled", "filled"):
+                setup, axes, tags, extra = rand_big_ops(rng, d=d, route=route)
+                for m in range(1, d):
+                    for sub in itertools.permutations(range(d), m):
+                        c = self.build(rng, setup, axes, subset=list(sub), tags=tags, extra=extra)
+                        c["tags"].append("exhaustive_axis_lists")
+                        yield c
 
     def neighbours(self, case):
         """the same history on a parent stored as int16 / int32 with every bin near the type's maximum (marginals and
@@ -290,6 +482,10 @@ class C09(HistNProp):
                 init["freq"] = near(init["freq"], 0)
                 if init.get("err2") is not None:
                     init["err2"] = near(init["err2"], 5)
+                if init.pop("missed_kind", None) or Fraction(init.get("missed") or 0) > 4:
+                    init["missed"] = "4"            # a missed weight of the beyond-2**53 stream does not fit the narrow type
+                c.pop("no_model", None)
+                c.pop("tolerance", None)
                 rest = [o for o in c["ops"][ns:]]
                 if variant == 2:
                     init["dtype"] = "int64"
@@ -300,6 +496,32 @@ class C09(HistNProp):
                 c["setup"] = len(c["ops"]) - len(rest)
                 c["tags"] = list(c.get("tags", [])) + [f"narrow:{dt}", "neighbour"]
                 yield c
+        if not ENABLE_BEYOND53:
+            return
+        # the same history on an int64 parent whose contents and / or squared errors are odd numbers beyond 2**53
+        n0 = len(ops[0]["freq"])
+        longest = max(len(b["bins"]) if b["t"] == "static" else b["count"] for b in ops[0]["axes"])
+        for variant in range(3):
+            cap = (I64MAX // longest) // n0
+
+            def beyond(vals, shift, cap=cap):
+                return [rs(((cap - ((7 * int(Fraction(v)) + 3 * i + shift) % 11) * (1 if variant == 0 else cap // 37)) | 1) - 2)
+                        for i, v in enumerate(vals)]
+            c = copy.deepcopy(case)
+            init = c["ops"][0]
+            if variant != 2:
+                init["freq"] = beyond(init["freq"], 0)
+            else:
+                init["freq"] = [rs(int(Fraction(v)) % 10) for v in init["freq"]]
+            init["err2"] = beyond(init["err2"] if init.get("err2") is not None else init["freq"], 5, cap=I64MAX // n0)
+            init["dtype"] = "int64"
+            rest = [o for o in c["ops"][ns:]]
+            c["ops"] = [init] + rest
+            c["setup"] = 1
+            c.pop("no_model", None)
+            c.pop("tolerance", None)
+            c["tags"] = [x for x in c.get("tags", []) if not x.startswith(("stream:", "narrow"))] + ["stream:beyond53:neighbour", "neighbour"]
+            yield c
 
     def shrink_candidates(self, case):
         ops = case["ops"]
@@ -311,11 +533,38 @@ class C09(HistNProp):
             del c["ops"][k]
             yield c
         for k in range(ns, len(ops)):
-            if ops[k]["op"] == "projection":
+            if ops[k]["op"] == "projection" and not any(o.get("h") == ops[k].get("out") for o in ops[k + 1:]):
+                # (a projection whose result is used later keeps its axes: the later calls were written for that result)
                 for j in range(len(ops[k]["axes"])):
                     c = copy.deepcopy(case)
                     del c["ops"][k]["axes"][j]
                     yield c
+        if any(t.startswith("stream:beyond53") for t in case.get("tags", [])):
+            # fewer events (the directly filled copy loses the same event), then smaller cells; the case stays well-formed
+            fills = [k for k in range(1, ns) if ops[k]["op"] == "fill"]
+            for n, k in enumerate(fills):
+                c = copy.deepcopy(case)
+                twins = [j for j in range(ns, len(ops)) if ops[j]["op"] == "fill" and ops[j].get("h") == 9]
+                if len(twins) == len(fills):
+                    del c["ops"][twins[n]]
+                del c["ops"][k]
+                c["setup"] = ns - 1
+                yield c
+            if ops[0]["op"] == "of_arrays":
+                for key in ("err2", "freq"):
+                    vals = ops[0].get(key)
+                    if vals is None:
+                        continue
+                    if any(v != "0" for v in vals):
+                        c = copy.deepcopy(case)
+                        c["ops"][0][key] = ["0" if i % 2 else v for i, v in enumerate(vals)]
+                        if c["ops"][0][key] != vals:
+                            yield c
+                    for i, v in enumerate(vals):
+                        if v not in ("0", "1"):
+                            c = copy.deepcopy(case)
+                            c["ops"][0][key][i] = "0"
+                            yield c
 
     def tags(self, case, io):
         t = super().tags(case, io)
@@ -326,6 +575,17 @@ class C09(HistNProp):
                 F = obj_arr(src["freq"], src["shape"])
                 if any(x > lim for ax in range(src["ndim"]) for x in np.asarray(F.sum(axis=ax), dtype=object).ravel()):
                     t.append("marginal_exceeds_parent_dtype_range")
+            if src["dtype"] == "int64":
+                # what the parent really holds after the setup ops (not what the generator meant to produce)
+                for key in ("freq", "err2"):
+                    A = obj_arr(src[key], src["shape"])
+                    if any(x > TWO53 for x in A.ravel()):
+                        t.append(f"int64_cell_beyond_2**53:{key}")
+                    sums = [x for ax in range(src["ndim"]) for x in np.asarray(A.sum(axis=ax), dtype=object).ravel()]
+                    if any(Fraction(float(x)) != x for x in sums):
+                        t.append(f"int64_marginal_not_a_float64:{key}")
+                if Fraction(src["missed"] or 0) > TWO53:
+                    t.append("int64_missed_beyond_2**53")
         except Exception:
             pass
         return t
@@ -346,6 +606,22 @@ class C09(HistNProp):
 
         def flat(a):
             return list(np.asarray(a, dtype=object).ravel())
+
+        # float32 parents of the tolerance stream: every sum may be rounded (at float32 precision); everything else exact
+        tol = Fraction(1, 10**5) if case.get("tolerance") else None
+
+        def same(got, exp):
+            got, exp = [Fraction(x) for x in got], [Fraction(x) for x in exp]
+            if len(got) != len(exp):
+                return False
+            if tol is None:
+                return got == exp
+            return all(abs(a - b) <= tol * max(abs(a), abs(b)) for a, b in zip(got, exp))
+
+        def bits(vals):
+            """how the exact sums compare with what float64 can hold (for the reader of a failure)"""
+            big = [x for x in vals if Fraction(float(x)) != x]
+            return f" [{len(big)} of the exact sums are integers that float64 cannot hold]" if big else ""
 
         for k, op in enumerate(ops):
             if k < ns:
@@ -391,40 +667,45 @@ class C09(HistNProp):
                 r = regs[op["out"]]
                 ef = PF.sum(axis=drop) if drop else PF
                 ee = PE.sum(axis=drop) if drop else PE
-                if [Fraction(x) for x in r["freq"]] != flat(ef):
+                if not same(r["freq"], flat(ef)):
                     fails.append(f"marginal: projection{tuple(op['axes'])} of the {par['dtype']} histogram {par['freq']} (shape "
-                                 f"{par['shape']}): contents {r['freq']} are not the sums over the dropped axes {[str(x) for x in flat(ef)]}")
-                if [Fraction(x) for x in r["err2"]] != flat(ee):
-                    fails.append(f"marginal_err2: projection{tuple(op['axes'])} squared errors {r['err2']} are not the sums over "
-                                 f"the dropped axes {[str(x) for x in flat(ee)]}")
+                                 f"{par['shape']}): contents {r['freq']} are not the sums over the dropped axes "
+                                 f"{[str(x) for x in flat(ef)]}{bits(flat(ef))}")
+                if not same(r["err2"], flat(ee)):
+                    fails.append(f"marginal_err2: projection{tuple(op['axes'])} of the {par['dtype']} histogram with squared errors "
+                                 f"{par['err2']} (shape {par['shape']}): squared errors {r['err2']} are not the sums over "
+                                 f"the dropped axes {[str(x) for x in flat(ee)]}{bits(flat(ee))}")
                 if r["bins"] != [par["bins"][i] for i in axs]:
                     fails.append(f"proj_bins: projection{tuple(op['axes'])} bins are not those of axes {axs} in original order")
                 if r["names"] != [pn[i] for i in axs]:
                     fails.append(f"proj_names: projection{tuple(op['axes'])} names {r['names']}, expected {[pn[i] for i in axs]}")
-                if Fraction(r["total"]) != Fraction(par["total"]):
+                if not same([r["total"]], [par["total"]]):
                     fails.append(f"proj_total: total changed from {par['total']} to {r['total']}")
+                elif not same([r["total"]], [sum(flat(PF), Fraction(0))]):
+                    fails.append(f"proj_total_exact: the total {r['total']} of projection{tuple(op['axes'])} is not the sum "
+                                 f"{sum(flat(PF), Fraction(0))} of the parent's contents {par['freq']}")
                 if r["ndim"] != len(axs):
                     fails.append("proj_ndim")
             if op["op"] == "accumulate" and op["h"] == 0:
                 ax = resolve(op["axis"], src["names"])
                 r = regs[op["out"]]
                 cs = np.cumsum(F, axis=ax)
-                got = [Fraction(x) for x in r["freq"]]
-                if got != flat(cs):
+                if not same(r["freq"], flat(cs)):
                     fails.append(f"accumulate: accumulate({op['axis']!r}) of the {src['dtype']} histogram {src['freq']} (shape "
                                  f"{src['shape']}) gives {r['freq']}, not the running sums along axis {ax} {[str(x) for x in flat(cs)]}")
                 elif r["shape"] == src["shape"]:
                     # last cumulative entry = marginal over that axis
                     lastslice = flat(np.take(obj_arr(r["freq"], r["shape"]), -1, axis=ax))
-                    if lastslice != flat(F.sum(axis=ax)):
+                    if not same(lastslice, flat(F.sum(axis=ax))):
                         fails.append(f"accumulate_last: the last entries of accumulate({op['axis']!r}) are not the marginal over axis {ax}")
                 if r["bins"] != src["bins"] or r["names"] != src["names"]:
                     fails.append("accumulate_bins: accumulate changed bins or names")
         last = outs[-1]["regs"]
-        if len(last) > 3 and last[2] is not None and last[3] is not None:
+        fails += self.direct_clause(case, outs, same)
+        if len(last) > 3 and last[2] is not None and last[3] is not None and self.same_final_axes(case, src):
             a, b = last[2], last[3]
             for f in ("bins", "names", "freq", "err2", "shape"):
-                if a[f] != b[f] and not (f in ("freq", "err2") and [Fraction(x) for x in a[f]] == [Fraction(x) for x in b[f]]):
+                if a[f] != b[f] and not (f in ("freq", "err2") and same(a[f], b[f])):
                     fails.append(f"compose: projecting in two steps differs from projecting once in {f}: {a[f]} vs {b[f]}")
         if len(last) > 5 and last[4] is not None and last[5] is not None:
             t, tt = last[4], last[5]
@@ -439,6 +720,51 @@ class C09(HistNProp):
             if t["missed"] != src["missed"]:
                 fails.append(f"T_missed: T changed missed from {src['missed']} to {t['missed']}")
         return fails[:6]
+
+    @staticmethod
+    def same_final_axes(case, src):
+        """do the two-step projection (registers 1, 2) and the one-step projection (register 3) of this case still ask for
+        the same axes of the parent?  (a shrunk case may have lost an axis of one of the lists)"""
+        try:
+            pr = {o["out"]: o for o in case["ops"][case.get("setup", 1):]
+                  if o["op"] == "projection" and o.get("expect") != "refused" and o.get("out") in (1, 2, 3)}
+            nm = src["names"]
+            res = lambda a, names: names.index(a) if isinstance(a, str) else a
+            kept1 = sorted(res(a, nm) for a in pr[1]["axes"])
+            two = sorted(kept1[res(a, [nm[i] for i in kept1])] for a in pr[2]["axes"])
+            one = sorted(res(a, nm) for a in pr[3]["axes"])
+            return pr[1]["h"] == 0 and pr[2]["h"] == 1 and pr[3]["h"] == 0 and two == one
+        except Exception:
+            return False
+
+    def direct_clause(self, case, outs, same):
+        """`filled` route: the projection (register 1) equals the histogram built directly from the kept columns of the
+        same events (register 9) whenever no event missed the parent's bins.  The clause checks for itself that the two
+        lists of events still correspond (a shrunk case may have lost some)."""
+        ops, ns = case["ops"], case.get("setup", 1)
+        last = outs[-1]["regs"]
+        if len(last) <= 9 or last[1] is None or last[9] is None:
+            return []
+        proj = next((o for o in ops[ns:] if o["op"] == "projection" and o.get("out") == 1 and o.get("h") == 0), None)
+        src = outs[ns - 1]["regs"][0]
+        if proj is None or any(o["op"] != "fill" for o in ops[1:ns]) or ops[0]["op"] != "empty":
+            return []
+        if axis_list_problem(proj["axes"], src["names"], src["ndim"]) is not None:
+            return []
+        kept = sorted(src["names"].index(a) if isinstance(a, str) else a for a in proj["axes"])
+        pf = [(o, outs[k]["ret"]) for k, o in enumerate(ops) if k < ns and o["op"] == "fill"]
+        df = [(o, outs[k]["ret"]) for k, o in enumerate(ops) if k >= ns and o["op"] == "fill" and o.get("h") == 9]
+        if len(pf) != len(df) or any(not isinstance(r, list) for _, r in pf + df):
+            return []           # an event missed the bins (or was refused): the text promises nothing
+        if any([a["v"][i] for i in kept] != b["v"] or a["w"] != b["w"] or a["wk"] != b["wk"] for (a, _), (b, _) in zip(pf, df)):
+            return []
+        p, q = last[1], last[9]
+        out = []
+        for f in ("bins", "names", "shape", "freq", "err2"):
+            if p[f] != q[f] and not (f in ("freq", "err2") and same(p[f], q[f])):
+                out.append(f"direct: projection{tuple(proj['axes'])} of the histogram filled with {[(a['v'], a['w']) for a, _ in pf]} "
+                           f"differs in {f} from the histogram filled directly with the kept columns: {p[f]} vs {q[f]}")
+        return out
 
     def nontrivial(self, case, io):
         try:
